@@ -342,15 +342,29 @@ impl<'a> ReadAdapter<'a> {
             0 => {
                 let buf = self.non_empty_reader_buffer_mut()?;
                 if buf.len() < N {
-                    return Err(DeserializationError::UnexpectedEOF);
+                    // The reader buffer holds fewer than N bytes, but we haven't necessarily
+                    // reached eof yet, so fall back to filling `self.buf`
+                    self.buffer_at_least(N)?;
+                    debug_assert!(self.buffer().len() >= N, "expected buffer to be at least {N} bytes after call to buffer_at_least");
+                    // SAFETY: `buffer_at_least` succeeded, so `self.buffer()` holds at least
+                    // N bytes, and `output` is defined to be exactly N bytes.
+                    unsafe {
+                        core::ptr::copy_nonoverlapping(
+                            self.buffer().as_ptr(),
+                            output.as_mut_ptr(),
+                            N,
+                        );
+                    }
+                    self.pos += N;
+                } else {
+                    // SAFETY: This copy is guaranteed to be safe, as we have validated above
+                    // that `buf` has at least N bytes, and `output` is defined to be exactly
+                    // N bytes.
+                    unsafe {
+                        core::ptr::copy_nonoverlapping(buf.as_ptr(), output.as_mut_ptr(), N);
+                    }
+                    self.reader.get_mut().consume(N);
                 }
-                // SAFETY: This copy is guaranteed to be safe, as we have validated above
-                // that `buf` has at least N bytes, and `output` is defined to be exactly
-                // N bytes.
-                unsafe {
-                    core::ptr::copy_nonoverlapping(buf.as_ptr(), output.as_mut_ptr(), N);
-                }
-                self.reader.get_mut().consume(N);
             },
             n if n >= N => {
                 // SAFETY: This copy is guaranteed to be safe, as we have validated above
@@ -393,10 +407,9 @@ impl<'a> ReadAdapter<'a> {
                     },
                     // We didn't get enough, but haven't necessarily reached eof yet, so fall back
                     // to filling `self.buf`
-                    m => {
-                        let needed = N - (m + n);
+                    _ => {
                         drop(reader_buf);
-                        self.buffer_at_least(needed)?;
+                        self.buffer_at_least(N)?;
                         debug_assert!(self.buffer().len() >= N, "expected buffer to be at least {N} bytes after call to buffer_at_least");
                         // SAFETY: This is guaranteed to be an in-bounds copy
                         unsafe {
@@ -415,23 +428,24 @@ impl<'a> ReadAdapter<'a> {
 
         // Check if we should reset our internal buffer
         if self.buffer().is_empty() && self.pos > 0 {
-            unsafe {
-                self.buf.set_len(0);
-            }
+            self.buf.clear();
+            self.pos = 0;
         }
 
         Ok(output)
     }
 
-    /// Fill `self.buf` with `count` bytes
+    /// Fill `self.buf` until it holds at least `count` unread bytes, i.e. until
+    /// `self.buffer().len() >= count`
     ///
     /// This should only be called when we can't read from the reader directly
-    fn buffer_at_least(&mut self, mut count: usize) -> Result<(), DeserializationError> {
-        // Read until we have at least `count` bytes, or until we reach end-of-file,
+    fn buffer_at_least(&mut self, count: usize) -> Result<(), DeserializationError> {
+        // Read until we have at least `count` unread bytes, or until we reach end-of-file,
         // which ever comes first.
         loop {
-            // If we have succesfully read `count` bytes, we're done
-            if count == 0 || self.buf.len() >= count {
+            // If we have `count` unread bytes (not counting the consumed prefix of `self.buf`),
+            // we're done
+            if self.buffer().len() >= count {
                 break Ok(());
             }
 
@@ -447,7 +461,6 @@ impl<'a> ReadAdapter<'a> {
             let consumed = buf.len();
             self.buf.extend_from_slice(buf);
             reader.consume(consumed);
-            count = count.saturating_sub(consumed);
         }
     }
 }
@@ -504,7 +517,10 @@ impl<'a> ByteReader for ReadAdapter<'a> {
         // this will return an error if we hit EOF first
         self.buffer_at_least(len)?;
 
-        Ok(&self.buffer()[0..len])
+        // Advance past the bytes we are returning
+        let start = self.pos;
+        self.pos += len;
+        Ok(&self.buf[start..self.pos])
     }
 
     #[inline]
